@@ -497,6 +497,15 @@ def run_rules(ctx, res):
     SKIP = "R-C02-skip"
     res.rule(SKIP, "a field is absent from the tree exactly when it was written `_`: the CST->AST stage rebuilds every value from the same-named field / variant of its source unconditionally; the usedness predicates look at the variant only (`Ident`/`Used` -> used, `_`/`Skipped` -> not); validation hands on each declaration as a plain, never mutated copy")
     declcopy.run(mir, res, SKIP)
+    # ... starting at the lexer: which source text is the `_` token (and which an identifier) is C08's table
+    from .c08 import run_rules as _c08_rules
+    from ..report import Result as _R8
+    r8 = _R8("C08", "quick", "other")
+    _c08_rules(syn, r8)
+    v8 = [v for v in r8.violations if v.rule in ("R-C08-table", "R-C08-exh")]
+    res.inst(SKIP, "lexer (C08 table and reserved words)", "", True, "%d violations" % len(v8))
+    for v in v8[:4]:
+        res.violate(SKIP, "c08|" + v.key, v.where, "whether a field name is the placeholder `_` or an identifier is decided by the tokenizer; C08's table comparison fails: " + v.msg[:300])
 
 
 def check(ctx):
